@@ -32,7 +32,7 @@ TRUST_COMMON = [
 # not_decided (clauses of the property out of reach of this family), technique.
 _ALL = {
     "C01": dict(
-        want=["T1", "T3", "D1", "D6", "D6b", "P2", "P3", "K1@reduce", "K4@reduce"],
+        want=["T1", "T3", "D1", "D2", "D6", "D6b", "M1", "M2", "P2", "P3", "K1@reduce", "K4@reduce", "K2"],
         explanation=("Static analysis of /repo's source. Decides: every row reducer (ScalarFuncs) normalised to a decision "
                      "table over NULL/NZ/ORD atoms equals the hand-written specification of the operation it is dispatched as "
                      "(size, count, sum, mean=sum/count, min, max, first, last); op->kernel->reducer dispatch by constant "
@@ -56,7 +56,7 @@ _ALL = {
         technique="null-code preservation (taint + idiom table), fact-walker dominance, route table",
     ),
     "C03": dict(
-        want=["M1", "M2", "M3", "M4", "M5", "D2", "D6b", "D9", "S2"],
+        want=["M1", "M2", "M3", "M4", "M5", "D2", "D6b", "D9", "S2", "K2"],
         explanation=("Decides the structural causes of strategy dependence: every merge of partial results receives the "
                      "accumulated count (M1) which is updated after the merge (M2); parallel_map places results by submission "
                      "index (M3); all row-aligned arrays are split by one splitter (M4); pointer lookups are offset by the "
@@ -99,7 +99,7 @@ _ALL = {
         technique="fact-walker dominance over inferred code variables; null-preservation idiom table",
     ),
     "C07": dict(
-        want=["P5", "P6", "S2", "P11", "P2", "D6b"],
+        want=["P5", "P6", "S2", "P11", "P2", "D2", "D6b", "K2"],
         explanation=("Decides that transform indexes code-ordered arrays only: the base of every subscript indexed by the row "
                      "codes carries no sort-permutation taint (P5), has a null slot (P6), is indexed after unification (S2), "
                      "and the transform path restores the input's index/container (P11)."),
@@ -151,7 +151,7 @@ _ALL = {
         technique="path pairing; table laws; dtype provenance",
     ),
     "C13": dict(
-        want=["S1", "S2", "S3", "S4"],
+        want=["S1", "S2", "S3", "S4", "K2"],
         explanation=("Decides history independence structurally: finite typestate interpretation of the key-representation "
                      "mutator from every state (S1); every consumer of global codes sees global codes (S2); every attribute "
                      "read by a method is initialised on every constructor path (S3); logical attributes are assigned only "
